@@ -1509,6 +1509,24 @@ class C11(Prop):
                 want += [vals[j] for j in idx]
             cases.append(Case('n%d' % k, gens.render_path(steps), [doc, doc]))
             expect.append(want if True else None)
+        # a slice directly after `..`: it is applied to every array below, each with its own length — bounds that lie outside the
+        # shorter arrays are clamped there as everywhere (the text is Coq's chain_path of one `..[s:e:t]` step)
+        for k in range(ctx.n(200, 2000) * budget_scale):
+            lens = [r.randint(0, 8) for _ in range(r.randint(2, 4))]
+            names_ = [b'a', b'b', b'c', b'd'][:len(lens)]
+            arrs = [('a', [('n', float(i)) for i in range(ln)]) for ln in lens]
+            doc = ('o', [(names_[0], arrs[0]), (names_[1], ('o', [(b'x', arrs[1])]))] + [(nm, ar) for nm, ar in zip(names_[2:], arrs[2:])])
+            order = [lens[0], lens[1]] + lens[2:]            # pre-order: members in ascending key order
+            sb = [r.choice([None, None] + list(range(-9, 10))), r.choice([None, None] + list(range(-9, 10))), r.choice(['absent', 'absent', 1, 2, 3, -1, -2, -3, None])]
+            fb = lambda x: b'' if x is None else b'%d' % x
+            text = b'$..[' + fb(sb[0]) + b':' + fb(sb[1]) + (b'' if sb[2] == 'absent' else b':' + fb(sb[2])) + b']'
+            c = Case('rs%d' % k, text, [doc, doc])
+            c.keyc = [(4, 5, list(fb(sb[0])), list(fb(sb[1])), None if sb[2] == 'absent' else list(fb(sb[2])))]
+            cases.append(c)
+            want = []
+            for ln in order:
+                want += py_slice_ref(ln, sb[0], sb[1], 1 if sb[2] in ('absent', None) else sb[2])
+            expect.append(want)
         # unions of plain indexes in ascending, descending and arbitrary order, some beyond either end of the array: every
         # subscript selects on its own, whatever the others do
         for k in range(ctx.n(300, 3000) * budget_scale):
@@ -3933,7 +3951,7 @@ class C16(Prop):
             "among near-miss sibling keys: the spellings ['k'], [\"k\"] (JSON-style escaping) and, for non-empty control-free "
             'keys, .k with every symbol backslash-escaped must return exactly that member, in five positions (root, after a '
             'name, after .., inside a filter operand, inside a multi-name selector); expected value by direct map lookup in '
-            'the harness, and compared with the model; multi-name selectors of 65..128 names. Non-trivial: the key needs escaping in some spelling')
+            'the harness, and compared with the model; multi-name selectors of 65..128 names; existence tests over one name (texts confirmed as Coq fchain_path) selecting exactly the members that hold it. Non-trivial: the key needs escaping in some spelling')
     trusted = TRUSTED_PARSE + ['encoding/json string unquoting is modelled concretely in coq/Text.v']
 
     def run(self, ctx, res, budget_scale=1, seed_offset=0):
@@ -4119,6 +4137,36 @@ class C16(Prop):
             c.keyc = spec
             c.meta = {'key': [str(k) for k in keys], 'pos': 'coq-chain-path', 'escaped': True, 'keyq': True}
             want[cid] = 'ok:[n(1,0)]' if present else '*err'
+            cases.append(c)
+        # C16_member_test_in_filter_operand: the existence test (plain and negated) over ONE name in any spelling, as Coq's fchain_path writes
+        # it (driver-confirmed): exactly the members that are objects holding that name, in member order — elements in index order,
+        # member values in ascending key order — or the others
+        for i in range(n // 10):
+            key = gen_key(r)
+            kb = key.encode('utf-8')
+            dot = gens.esc_dot(kb)
+            style = r.choice("'\"." if dot is not None else "'\"")
+            if style == '.':
+                seg, stp = '.' + dot.decode('utf-8'), (0, [ord(ch) for ch in key])
+            else:
+                body = ''.join('\\' + ch if ch in (style, '\\') else ('\\u%04x' % ord(ch) if ord(ch) < 0x20 else ch) for ch in key)
+                seg, stp = '[' + style + body + style + ']', (ord(style), [ord(ch) for ch in key])
+            neg = r.random() < 0.4
+            sibs = [(sx.encode('utf-8'), ('n', float(j + 2))) for j, sx in enumerate(near_misses(r, key))]
+            pool = [('o', [(kb, r.choice([('n', 1.0), ('z',), ('b', False), ('a', []), ('o', [])]))] + sibs[:1]), ('o', sibs + [(b'zz9', ('n', 5.0))] if kb != b'zz9' else sibs),
+                    ('o', [(kb, ('s', b'x'))]), ('n', 3.0), ('a', [('o', [(kb, ('n', 1.0))])]), ('s', kb), ('o', [])]
+            mem = [r.choice(pool) for _ in range(r.randint(2, 5))]
+            if r.random() < 0.5:
+                doc, ordered = ('a', mem), mem
+            else:
+                names_ = r.sample([b'p', b'q', b'A', b'b1', b'\xc3\xa9', b'z'], len(mem))
+                doc, ordered = ('o', list(zip(names_, mem))), [v for _, v in sorted(zip(names_, mem))]
+            sel = [v for v in ordered if (v[0] == 'o' and any(kk == kb for kk, _ in v[1])) != neg]
+            cid = 'fo%d' % i
+            c = Case(cid, ('$[?(' + ('!' if neg else '') + '@' + seg + ')]').encode('utf-8'), [doc])
+            c.keyc = [(9 if neg else 7, [stp])]
+            c.meta = {'key': key, 'pos': 'coq-filter-operand', 'escaped': seg[1:] != key, 'keyq': True}
+            want[cid] = ('ok:[%s]' % ','.join(core.doc_render(v) for v in sel)) if sel else '*err'
             cases.append(c)
         # two members addressed from the root on both sides of a comparison: distinct keys must stay distinct
         for i in range(n // 8):
@@ -4667,6 +4715,15 @@ class C20(EvalProp):
                 doc = ('x', kind)
                 cs.append(Case('root%d_%d' % (j, i), path, [doc, ('o', [(b'a', doc)]), ('a', [doc])], acc=(i + j) % 5 == 0,
                                meta={'family': 'foreign-root', 'nsteps': 1}))
+        # regular expressions that match every text (and some digits): `=~` holds of STRINGS only — a foreign value is never matched, whatever
+        # a String() / Error() / MarshalText method of its type would print
+        for j, kind in enumerate(sorted(core.KINDS)):
+            for i, pat in enumerate([b'.', b'^', b'.*', b'[0-9]', b'[a-zA-Z]', b'(?s).*']):
+                if (i + j) % 2:
+                    continue
+                doc = ('a', [('o', [(b'd', ('x', kind)), (b'id', ('n', 0.0))]), ('o', [(b'd', ('s', b'2s 10 ab')), (b'id', ('n', 1.0))]), ('x', kind), ('s', b'7 z')])
+                path = [b'$[?(@.d =~ /%s/)].id', b'$[?(@ =~ /%s/)]', b'$[?(@.d =~ /%s/ || @.id == 5)].id'][(i + j) % 3] % pat
+                cs.append(Case('rxf%d_%d' % (j, i), path, [doc], meta={'family': 'regex-on-foreign-values', 'nsteps': 2}))
         # C20_foreign_value_at_depth_from_text: name and index steps down to a node that holds a foreign value, then one more step (and now
         # and then further ones): type unmatched naming that step, expected object / array, found the Go type (texts confirmed as Coq chain_path)
         def replace_at(d, spec, newv):
